@@ -5,21 +5,26 @@
 //!  A. configuration layering: every list of <= 3 (thorough: additionally every list of 4 over a reduced
 //!     alphabet) YAML documents from a 40-document alphabet (5 `path`s x 8 bodies) x 4 file paths, observed
 //!     through `config::load_from_yaml` + `ConfigSet::select`.
-//!  B. rule folding: every rule list of length <= 3 (thorough <= 4) from a 12-rule alphabet x 12 records through
-//!     the CSV importer, from a 15-rule alphabet (the same 12 + 3 with capturing `category` fields) x 12 records
-//!     through the Viseca importer, and from a 15-rule camt alphabet x 7 records through the ISO Camt053 importer.
+//!  B. rule folding: every rule list of length <= 3 (thorough <= 4) from a 13-rule alphabet x 20 records through
+//!     the CSV importer, from a 16-rule alphabet (the same 13 + 3 with capturing `category` fields) x 16 records
+//!     through the Viseca importer, and from a 15-rule camt alphabet x 10 records through the ISO Camt053 importer.
+//!     Records include the value classes a short alphabet lacks: a field that is ABSENT (camt053 entry without
+//!     <Domn> block, without related parties, without transaction details / additional info / remittance info; empty
+//!     CSV category cell; Viseca entry without category line), a value containing a LINE BREAK (quoted CSV cell,
+//!     two-line AddtlTxInf), a leading blank, regex metacharacters; patterns with `^`, `$`, both, neither.
 //!     The Viseca / Camt053 alphabets contain OR-lists of 2-3 elements whose 2-field AND elements CAPTURE in a
 //!     field that is applied early and FAIL (or succeed) in a later one, followed by elements that match: a failed
 //!     element must contribute nothing. Observed on the PRINTED transaction
 //!     (`load_from_yaml` -> `select` -> `import::import` -> `Txn::to_double_entry` -> `DisplayContext::as_display`,
 //!     i.e. the body of `ImportCmd::run` without the file system).
 //!  C. end to end: every ordered pair of rules split over two layered documents (`bank/`, `bank/acct`), both
-//!     document orders, x 4 records, through `okane::cmd::ImportCmd::run` on real files.
+//!     document orders, x 7 records, through `okane::cmd::ImportCmd::run` on real files.
 //!
 //! The reference is NON-DETERMINISTIC where the statement is silent: it returns the SET of acceptable
 //! results (tie order of equal-length paths; whole-override vs. per-key merge of `format`; which of several
 //! matching OR elements supplies the captures; which of two fields of one element capturing the same name wins;
-//! whether the `payee` field of an element sees the payee captured by a sibling field). One acceptable result
+//! whether the `payee` field of an element sees the payee captured by a sibling field; whether blanks around a
+//! field value take part in matching). One acceptable result
 //! => MUST; several => the observation
 //! must still be one of them (else violation), and the case is counted DON'T-CARE.
 
@@ -38,7 +43,8 @@ pub const DEF: CheckDef = CheckDef {
     technique: "bounded-exhaustive enumeration of configuration-document lists x file paths (through ConfigSet::select) and of rewrite-rule lists x records (through the real CSV / Viseca / ISO-Camt053 importers and the transaction printer, plus ImportCmd::run on real files), each compared with a set-valued reference model of the documented merge and fold",
     rule: "case = (document list, file path) [family A], (importer, rule list, record) [family B] or (rule pair split over two layered documents, document order, record) [family C]. states = cases executed, transitions = real-code executions compared with the reference; a case is MUST when the reference admits exactly one result, DON'T-CARE (observation still required to be one of the admitted results) when the statement leaves several open",
     assumptions: &[
-        "the reference matches patterns with the `regex` crate (search semantics, case-insensitive): regex semantics themselves are trusted, not verified",
+        "the reference matches patterns with the `regex` crate (search semantics, case-insensitive, default dialect: `^` / `$` anchor at the start / end of the field value, not at inner line breaks - constant FIELD_ANCHORS_IS_MUST): regex semantics themselves are trusted, not verified",
+        "a matcher on a field the record does not have (no <Domn> block, no related party, no additional info) does not match; whether blanks around a field value take part in matching is left open (both readings admitted)",
         "case-insensitive matching is taken from the property's anchored mechanism (extract.rs regex_matcher); the statement and doc/import.ja.md do not mention it (constant CASE_FOLD_IS_MUST)",
         "alphabets avoid empty / non-participating capture groups and a rule with both `payee:` and a payee capture; AND elements with several capturing fields, or with a `payee` field next to a payee-capturing field, ARE included (Viseca / Camt053; okane applies the fields of an element in the fixed order of RewriteField since commit f3b005d) and are judged with a set-valued reference: an element fails iff some field fails under every reading, a failed element contributes no captures, and where two readings of a MATCHING element differ both are admitted (DON'T-CARE)",
         "the CSV alphabet has no capture group in `category` (the CSV importer deliberately discards captures of category / secondary_commodity; not judged)",
@@ -51,6 +57,11 @@ pub const DEF: CheckDef = CheckDef {
 
 /// Cases whose verdict depends on case-insensitive matching are MUST (see assumptions). Set to false to make them DON'T-CARE.
 const CASE_FOLD_IS_MUST: bool = true;
+
+/// `^` and `$` anchor at the start / end of the FIELD VALUE (default dialect of the `regex` crate, which the documentation's own
+/// example `^Visa… (?P<payee>.*)$` relies on), not at every line of a value containing line breaks. Set to false to make the cases
+/// whose verdict depends on that DON'T-CARE.
+const FIELD_ANCHORS_IS_MUST: bool = true;
 
 /// Which of several matching elements of an OR-list supplies the captures is left open by the statement
 /// (false: any matching element is admitted, such cases are DON'T-CARE). Set to true to demand okane's current
@@ -548,7 +559,7 @@ const SRC_ACCOUNT: &str = "Assets:Bank";
 const ACCT_SVCR_REF: &str = "REF-1";
 
 /// Rule alphabet for the importers whose records have a payee and a category (CSV, Viseca).
-const PC_RULES: [RuleDef; 12] = [
+const PC_RULES: [RuleDef; 13] = [
     // captures payee and code from the head; no account
     RuleDef { name: "cap-head", or_list: false, elems: &[&[(F::Payee, r"^CARD (?P<code>\d+) (?P<payee>.*)$")]], pending: false, payee: None, account: None },
     // captures payee and code from the tail; no account
@@ -573,10 +584,15 @@ const PC_RULES: [RuleDef; 12] = [
     RuleDef { name: "or-capture", or_list: true, elems: &[&[(F::Payee, r"^coop (?P<payee>.+)$")], &[(F::Category, "food")]], pending: false, payee: None, account: Some("Expenses:Coop") },
     // capture together with an account
     RuleDef { name: "cap-account", or_list: false, elems: &[&[(F::Payee, r"^salary (?P<payee>.+)$")]], pending: false, payee: None, account: Some("Income:Salary") },
+    // anchors: `^…$` on the category (must not match `Misc\nFood`, ` Food`, ``), `…$` with escaped metacharacters on the payee
+    RuleDef { name: "anchored-exact", or_list: true, elems: &[&[(F::Category, "^food$")], &[(F::Payee, r"\(shop\)$")]], pending: false, payee: None, account: Some("Expenses:Exact") },
 ];
 
 const PC_PAYEES: [&str; 3] = ["CARD 1234 Migros Zurich 88", "coop city", "Salary ACME"];
 const PC_CATEGORIES: [&str; 2] = ["Food", "Transfer"];
+const PAYEE_META: &str = "A+B (Shop)";
+const CAT_MULTILINE: &str = "Misc\nFood";
+const CAT_BLANK: &str = " Food";
 
 /// Rule alphabet for ISO Camt053.
 const CAMT_RULES: [RuleDef; 15] = [
@@ -625,6 +641,10 @@ struct Rec {
     acct_ref: bool,
     /// camt053: entry without transaction details
     no_details: bool,
+    /// camt053: BkTxCd carries only a proprietary code, no <Domn> block (what Wise exports)
+    no_domain: bool,
+    /// camt053: transaction details without <RltdPties>
+    no_parties: bool,
 }
 
 impl Rec {
@@ -633,13 +653,29 @@ impl Rec {
     }
 }
 
-fn pc_records() -> Vec<Rec> {
+/// The 12 base records (3 payees x 2 categories x debit/credit) followed by the value classes a short alphabet lacks:
+/// a payee with regex metacharacters; for CSV a category cell containing a line break, one with a leading blank, an
+/// empty one; for Viseca an entry without category line.
+fn pc_records(veh: Veh) -> Vec<Rec> {
+    let mk = |p: &'static str, c: &'static str, credit: bool| Rec { payee: Some(p), fields: vec![(F::Category, c)], credit, acct_ref: false, no_details: false, no_domain: false, no_parties: false };
     let mut v = Vec::new();
     for credit in [false, true] {
         for c in PC_CATEGORIES {
             for p in PC_PAYEES {
-                v.push(Rec { payee: Some(p), fields: vec![(F::Category, c)], credit, acct_ref: false, no_details: false });
+                v.push(mk(p, c, credit));
             }
+        }
+    }
+    for c in PC_CATEGORIES {
+        v.push(mk(PAYEE_META, c, false));
+    }
+    let odd: &[&'static str] = match veh {
+        Veh::Csv => &[CAT_MULTILINE, CAT_BLANK, ""],
+        _ => &[""],
+    };
+    for c in odd {
+        for p in [PC_PAYEES[0], PC_PAYEES[1]] {
+            v.push(mk(p, c, false));
         }
     }
     v
@@ -652,31 +688,48 @@ fn camt_records() -> Vec<Rec> {
     for acct_ref in [false, true] {
         let mut f = dom("ICDT", "OTHR");
         f.extend([(F::CreditorName, "Migros Zurich"), (F::DebtorName, "Taro Yamada"), (F::AddtlTxInfo, "Maestro 1234 Migros Zurich"), (F::AddtlEntryInfo, "Card payment")]);
-        v.push(Rec { payee: None, fields: f, credit: false, acct_ref, no_details: false });
+        v.push(Rec { payee: None, fields: f, credit: false, acct_ref, no_details: false, no_domain: false, no_parties: false });
     }
     // salary
     for acct_ref in [false, true] {
         let mut f = dom("RCDT", "SALA");
         f.extend([(F::CreditorName, "Taro Yamada"), (F::DebtorName, "ACME Corp"), (F::AddtlTxInfo, "Salary October"), (F::AddtlEntryInfo, "Credit transfer"), (F::RmtInfo, "Invoice 2024-10 salary")]);
-        v.push(Rec { payee: None, fields: f, credit: true, acct_ref, no_details: false });
+        v.push(Rec { payee: None, fields: f, credit: true, acct_ref, no_details: false, no_domain: false, no_parties: false });
     }
     // transfer to a private person, no additional transaction info
     {
         let mut f = dom("ICDT", "AUTT");
         f.extend([(F::CreditorName, "Hanako Migros"), (F::DebtorName, "Taro Yamada"), (F::AddtlEntryInfo, "Standing order"), (F::RmtInfo, "Rent")]);
-        v.push(Rec { payee: None, fields: f, credit: false, acct_ref: false, no_details: false });
+        v.push(Rec { payee: None, fields: f, credit: false, acct_ref: false, no_details: false, no_domain: false, no_parties: false });
     }
     // bank fee: entry without transaction details
     {
         let mut f = dom("RDDT", "OTHR");
         f.extend([(F::AddtlEntryInfo, "Account fee")]);
-        v.push(Rec { payee: None, fields: f, credit: false, acct_ref: false, no_details: true });
+        v.push(Rec { payee: None, fields: f, credit: false, acct_ref: false, no_details: true, no_domain: false, no_parties: true });
     }
     // refund from the shop (credit)
     {
         let mut f = dom("RCDT", "OTHR");
         f.extend([(F::CreditorName, "Taro Yamada"), (F::DebtorName, "migros zurich"), (F::AddtlTxInfo, "Refund"), (F::AddtlEntryInfo, "Credit transfer")]);
-        v.push(Rec { payee: None, fields: f, credit: true, acct_ref: false, no_details: false });
+        v.push(Rec { payee: None, fields: f, credit: true, acct_ref: false, no_details: false, no_domain: false, no_parties: false });
+    }
+    // salary whose bank transaction code is proprietary-only: no domain code at all
+    {
+        let f = vec![(F::CreditorName, "Taro Yamada"), (F::DebtorName, "ACME Corp"), (F::AddtlTxInfo, "Salary October"), (F::AddtlEntryInfo, "Credit transfer")];
+        v.push(Rec { payee: None, fields: f, credit: true, acct_ref: false, no_details: false, no_domain: true, no_parties: false });
+    }
+    // card payment whose additional transaction info spans two lines
+    {
+        let mut f = dom("ICDT", "OTHR");
+        f.extend([(F::CreditorName, "Migros Zurich"), (F::DebtorName, "Taro Yamada"), (F::AddtlTxInfo, "Maestro 5678 Kiosk\nMigros Zurich"), (F::AddtlEntryInfo, "Card payment")]);
+        v.push(Rec { payee: None, fields: f, credit: false, acct_ref: false, no_details: false, no_domain: false, no_parties: false });
+    }
+    // card payment without related parties
+    {
+        let mut f = dom("ICDT", "OTHR");
+        f.extend([(F::AddtlTxInfo, "Maestro 1234 Migros Zurich"), (F::AddtlEntryInfo, "Card payment")]);
+        v.push(Rec { payee: None, fields: f, credit: false, acct_ref: false, no_details: false, no_domain: false, no_parties: true });
     }
     v
 }
@@ -689,35 +742,54 @@ fn base_config(veh: Veh, path: &str) -> String {
     }
 }
 
+fn csv_cell(s: &str) -> String {
+    if s.contains(['\n', '"', ',']) || s.starts_with(' ') || s.ends_with(' ') {
+        format!("\"{}\"", s.replace('"', "\"\""))
+    } else {
+        s.to_string()
+    }
+}
+
 fn xml_escape(s: &str) -> String {
     s.replace('&', "&amp;").replace('<', "&lt;").replace('>', "&gt;")
 }
 
 fn source_text(veh: Veh, rec: &Rec) -> String {
     match veh {
-        Veh::Csv => format!("date,payee,category,amount\n2024/01/05,{},{},{}\n", rec.payee.unwrap(), rec.field(F::Category).unwrap(), if rec.credit { "100" } else { "-100" }),
+        Veh::Csv => format!("date,payee,category,amount\n2024/01/05,{},{},{}\n", csv_cell(rec.payee.unwrap()), csv_cell(rec.field(F::Category).unwrap()), if rec.credit { "100" } else { "-100" }),
         // amounts on a card statement are expenses unless followed by " -"
-        Veh::Viseca => format!("05.01.24 05.01.24 {} 100.00{}\n{}\n", rec.payee.unwrap(), if rec.credit { " -" } else { "" }, rec.field(F::Category).unwrap()),
+        Veh::Viseca => {
+            // an empty category = an entry without category line
+            let c = rec.field(F::Category).unwrap();
+            format!("05.01.24 05.01.24 {} 100.00{}\n{}", rec.payee.unwrap(), if rec.credit { " -" } else { "" }, if c.is_empty() { String::new() } else { format!("{}\n", c) })
+        }
         Veh::Camt => {
             let ind = if rec.credit { "CRDT" } else { "DBIT" };
             let mut s = String::from("<?xml version=\"1.0\" encoding=\"UTF-8\"?>\n<Document><BkToCstmrStmt><Stmt>\n");
             s.push_str("<Bal><Tp><CdOrPrtry><Cd>CLBD</Cd></CdOrPrtry></Tp><Amt Ccy=\"CHF\">1000</Amt><CdtDbtInd>CRDT</CdtDbtInd></Bal>\n");
             s.push_str(&format!("<Ntry><Amt Ccy=\"CHF\">100</Amt><CdtDbtInd>{}</CdtDbtInd><BookgDt><Dt>2024-01-05</Dt></BookgDt><ValDt><Dt>2024-01-05</Dt></ValDt>\n", ind));
-            s.push_str(&format!("<BkTxCd><Domn><Cd>{}</Cd><Fmly><Cd>{}</Cd><SubFmlyCd>{}</SubFmlyCd></Fmly></Domn></BkTxCd>\n", rec.field(F::DomainCode).unwrap(), rec.field(F::DomainFamily).unwrap(), rec.field(F::DomainSubFamily).unwrap()));
+            if rec.no_domain {
+                s.push_str("<BkTxCd><Prtry><Cd>TRANSFER-453789</Cd></Prtry></BkTxCd>\n");
+            } else {
+                s.push_str(&format!("<BkTxCd><Domn><Cd>{}</Cd><Fmly><Cd>{}</Cd><SubFmlyCd>{}</SubFmlyCd></Fmly></Domn></BkTxCd>\n", rec.field(F::DomainCode).unwrap(), rec.field(F::DomainFamily).unwrap(), rec.field(F::DomainSubFamily).unwrap()));
+            }
             if !rec.no_details {
                 s.push_str("<NtryDtls><Btch><NbOfTxs>1</NbOfTxs></Btch><TxDtls><Refs>");
                 if rec.acct_ref {
                     s.push_str(&format!("<AcctSvcrRef>{}</AcctSvcrRef>", ACCT_SVCR_REF));
                 }
                 s.push_str("<EndToEndId>NOTPROVIDED</EndToEndId></Refs>");
-                s.push_str(&format!("<Amt Ccy=\"CHF\">100</Amt><CdtDbtInd>{}</CdtDbtInd>\n<RltdPties>", ind));
-                if let Some(d) = rec.field(F::DebtorName) {
-                    s.push_str(&format!("<Dbtr><Nm>{}</Nm></Dbtr>", xml_escape(d)));
+                s.push_str(&format!("<Amt Ccy=\"CHF\">100</Amt><CdtDbtInd>{}</CdtDbtInd>\n", ind));
+                if !rec.no_parties {
+                    s.push_str("<RltdPties>");
+                    if let Some(d) = rec.field(F::DebtorName) {
+                        s.push_str(&format!("<Dbtr><Nm>{}</Nm></Dbtr>", xml_escape(d)));
+                    }
+                    if let Some(c) = rec.field(F::CreditorName) {
+                        s.push_str(&format!("<Cdtr><Nm>{}</Nm></Cdtr>", xml_escape(c)));
+                    }
+                    s.push_str("</RltdPties>");
                 }
-                if let Some(c) = rec.field(F::CreditorName) {
-                    s.push_str(&format!("<Cdtr><Nm>{}</Nm></Cdtr>", xml_escape(c)));
-                }
-                s.push_str("</RltdPties>");
                 if let Some(i) = rec.field(F::RmtInfo) {
                     s.push_str(&format!("<RmtInf><Ustrd>{}</Ustrd></RmtInf>", xml_escape(i)));
                 }
@@ -737,14 +809,14 @@ fn source_text(veh: Veh, rec: &Rec) -> String {
 // ---------------------------------------------------------------------------------------------
 
 thread_local! {
-    static RE_CACHE: RefCell<HashMap<(String, bool), regex::Regex>> = RefCell::new(HashMap::new());
+    static RE_CACHE: RefCell<HashMap<(String, bool, bool), regex::Regex>> = RefCell::new(HashMap::new());
 }
 
-fn re(pat: &str, ci: bool) -> regex::Regex {
+fn re(pat: &str, sem: Sem) -> regex::Regex {
     RE_CACHE.with(|c| {
         c.borrow_mut()
-            .entry((pat.to_string(), ci))
-            .or_insert_with(|| regex::RegexBuilder::new(pat).case_insensitive(ci).build().unwrap_or_else(|e| panic!("harness bug: bad pattern {}: {}", pat, e)))
+            .entry((pat.to_string(), sem.case_insensitive, sem.multi_line))
+            .or_insert_with(|| regex::RegexBuilder::new(pat).case_insensitive(sem.case_insensitive).multi_line(sem.multi_line).build().unwrap_or_else(|e| panic!("harness bug: bad pattern {}: {}", pat, e)))
             .clone()
     })
 }
@@ -764,7 +836,13 @@ struct Sem {
     /// payee matchers see the payee as rewritten by earlier rules (false: always the original) — only used to
     /// measure how many cases depend on threading
     threaded: bool,
+    /// `^` / `$` anchor at every line of the value (false = the documented dialect) — only used to measure / classify
+    multi_line: bool,
+    /// field values are matched without leading / trailing blanks (the statement does not say; both readings admitted)
+    trim: bool,
 }
+
+const SEM: Sem = Sem { case_insensitive: true, threaded: true, multi_line: false, trim: false };
 
 type Caps = (Option<String>, Option<String>);
 
@@ -797,7 +875,7 @@ fn elem_outcomes(e: Elem, rec: &Rec, cur_payee: Option<&str>, sem: Sem) -> ElemR
             }
             continue;
         }
-        match rec.field(*f).and_then(|t| re(pat, sem.case_insensitive).captures(t)) {
+        match rec.field(*f).map(|t| if sem.trim { t.trim() } else { t }).and_then(|t| re(pat, sem).captures(t)) {
             None => failed = true,
             Some(caps) => {
                 pcaps.extend(named(&caps, "payee"));
@@ -830,7 +908,7 @@ fn elem_outcomes(e: Elem, rec: &Rec, cur_payee: Option<&str>, sem: Sem) -> ElemR
             targets.insert(cur_payee.map(str::to_string));
             targets.extend(pcaps.iter().cloned().map(Some));
             for t in targets {
-                let own: Option<Caps> = t.as_deref().and_then(|t| re(pat, sem.case_insensitive).captures(t).map(|caps| (named(&caps, "payee"), named(&caps, "code"))));
+                let own: Option<Caps> = t.as_deref().and_then(|t| re(pat, sem).captures(t).map(|caps| (named(&caps, "payee"), named(&caps, "code"))));
                 match own {
                     None => {
                         outcomes.insert(None);
@@ -864,6 +942,8 @@ struct FoldInfo {
     failed_capturing_element: bool,
     /// what such elements captured
     dead_captures: Vec<String>,
+    /// some rule tests a field the record does not have (no <Domn>, no related parties, no additional info, ...)
+    absent_field_tested: bool,
 }
 
 /// The documented fold; returns every admissible final state.
@@ -877,6 +957,9 @@ fn fold_ref(rules: &[&RuleDef], rec: &Rec, sem: Sem) -> (BTreeSet<St>, FoldInfo)
         for st in &states {
             let cur: Option<&str> = if sem.threaded { st.payee.as_deref().or(rec.payee) } else { rec.payee };
             let ers: Vec<ElemRes> = r.elems.iter().map(|e| elem_outcomes(e, rec, cur, sem)).collect();
+            if r.elems.iter().any(|e| e.iter().any(|(f, _)| *f != F::Payee && rec.field(*f).map_or(true, |v| v.is_empty()))) {
+                info.absent_field_tested = true;
+            }
             // an OR-list matches if any element does; a failed element contributes nothing; which MATCHING element
             // supplies the captures is left open (or: the first one, see OR_FIRST_ELEMENT_WINS)
             let mut results: BTreeSet<Option<Caps>> = BTreeSet::new();
@@ -1003,17 +1086,25 @@ struct Judged {
     /// camt053 record with an AcctSvcrRef: a code capture is admitted in every result (code judged) / in none or some (default not judged)
     ref_with_capture: bool,
     ref_without_capture: bool,
+    anchor_dependent: bool,
+    absent_field_tested: bool,
 }
 
 /// Compare a printed transaction with the reference fold of `rules` over `rec`.
 fn judge_fold(tag: &str, veh: Veh, rules: &[&RuleDef], rec: &Rec, printed: &Printed, src_account: &str) -> Judged {
-    let sem = Sem { case_insensitive: true, threaded: true };
-    let (accept, info) = fold_ref(rules, rec, sem);
+    let sem = SEM;
+    let (mut accept, info) = fold_ref(rules, rec, sem);
+    let (trimmed, _) = fold_ref(rules, rec, Sem { trim: true, ..sem });
+    let (multi_line, _) = fold_ref(rules, rec, Sem { multi_line: true, ..sem });
+    let anchor_dependent = multi_line != accept;
+    let trim_dependent = trimmed != accept;
     let (unthreaded, _) = fold_ref(rules, rec, Sem { threaded: false, ..sem });
     let (case_sensitive, _) = fold_ref(rules, rec, Sem { case_insensitive: false, ..sem });
     let thread_dependent = unthreaded != accept;
     let case_dependent = case_sensitive != accept;
-    let mk = |outcome: Outcome| Judged { outcome, thread_dependent, case_dependent, or_ambiguous: info.ambiguous, override_seen: info.account_rules >= 2, failed_capturing_element: info.failed_capturing_element, ref_with_capture: rec.acct_ref && accept.iter().all(|s| s.code.is_some()), ref_without_capture: rec.acct_ref && accept.iter().any(|s| s.code.is_none()) };
+    // whether blanks around a field value take part in matching is left open: admit both readings
+    accept.extend(trimmed);
+    let mk = |outcome: Outcome| Judged { outcome, thread_dependent, case_dependent, or_ambiguous: info.ambiguous, override_seen: info.account_rules >= 2, failed_capturing_element: info.failed_capturing_element, ref_with_capture: rec.acct_ref && accept.iter().all(|s| s.code.is_some()), ref_without_capture: rec.acct_ref && accept.iter().any(|s| s.code.is_none()), anchor_dependent, absent_field_tested: info.absent_field_tested };
 
     // the posting to the configured account, and the counter-posting
     if printed.posts.len() != 2 {
@@ -1096,6 +1187,8 @@ fn judge_fold(tag: &str, veh: Veh, rules: &[&RuleDef], rec: &Rec, printed: &Prin
                     "wrong-capture"
                 }
             }
+            "account" if anchor_dependent && multi_line.iter().any(|m| m.account.as_deref().unwrap_or(unknown) == counter_account) => "anchor-matched-inside-multi-line-value",
+            "account" if info.absent_field_tested && rec.no_domain && st.account.as_deref() != Some(counter_account.as_str()) && !counter_account.ends_with(":Unknown") => "matched-absent-domain-code",
             "account" => {
                 if st.account.is_none() {
                     "want-unknown"
@@ -1135,8 +1228,14 @@ fn judge_fold(tag: &str, veh: Veh, rules: &[&RuleDef], rec: &Rec, printed: &Prin
         },
         if st.cleared { "cleared" } else { "pending" }
     );
+    if trim_dependent {
+        return mk(Outcome::dont_care(format!("{}/{}/blank-trimming-left-open", tag, veh.name())));
+    }
     if accept.len() > 1 {
         return mk(Outcome::dont_care(format!("{}/{}/capture-choice-left-open", tag, veh.name())));
+    }
+    if anchor_dependent && !FIELD_ANCHORS_IS_MUST {
+        return mk(Outcome::dont_care(format!("{}/{}/anchor-dialect-dependent", tag, veh.name())));
     }
     if case_dependent && !CASE_FOLD_IS_MUST {
         return mk(Outcome::dont_care(format!("{}/{}/case-fold-dependent", tag, veh.name())));
@@ -1146,7 +1245,7 @@ fn judge_fold(tag: &str, veh: Veh, rules: &[&RuleDef], rec: &Rec, printed: &Prin
 
 /// The admitted results, for case descriptions.
 fn admitted(rules: &[&RuleDef], rec: &Rec) -> String {
-    let (accept, _) = fold_ref(rules, rec, Sem { case_insensitive: true, threaded: true });
+    let (accept, _) = fold_ref(rules, rec, SEM);
     let unknown = if rec.credit { "Income:Unknown" } else { "Expenses:Unknown" };
     accept
         .iter()
@@ -1157,7 +1256,7 @@ fn admitted(rules: &[&RuleDef], rec: &Rec) -> String {
 
 fn fold_case(ctx: &mut Ctx, veh: Veh, rules: &[&RuleDef], rec: &Rec) {
     let path = "stmt/";
-    let mut flags = (false, false, false, false, false, false, false);
+    let mut flags = (false, false, false, false, false, false, false, false, false);
     let fl = &mut flags;
     ctx.case(
         || format!("[B {}] configuration:\n{}{}source {}:\n{}reference admits: {}", veh.name(), base_config(veh, path), rewrite_yaml(rules), veh.file(), source_text(veh, rec), admitted(rules, rec)),
@@ -1176,7 +1275,7 @@ fn fold_case(ctx: &mut Ctx, veh: Veh, rules: &[&RuleDef], rec: &Rec) {
                 Err(e) => return Outcome::violation(format!("fold/{}/unreadable-output", veh.name()), e),
             };
             let j = judge_fold("fold", veh, rules, rec, &printed, SRC_ACCOUNT);
-            *fl = (j.thread_dependent, j.case_dependent, j.or_ambiguous, j.override_seen, j.failed_capturing_element, j.ref_with_capture, j.ref_without_capture);
+            *fl = (j.thread_dependent, j.case_dependent, j.or_ambiguous, j.override_seen, j.failed_capturing_element, j.ref_with_capture, j.ref_without_capture, j.anchor_dependent, j.absent_field_tested);
             j.outcome
         },
     );
@@ -1191,6 +1290,12 @@ fn fold_case(ctx: &mut Ctx, veh: Veh, rules: &[&RuleDef], rec: &Rec) {
     }
     if flags.3 {
         ctx.count("fold_cases_with_account_override", 1);
+    }
+    if flags.7 {
+        ctx.count("fold_cases_depending_on_field_anchors_vs_line_anchors", 1);
+    }
+    if flags.8 {
+        ctx.count("fold_cases_testing_a_field_the_record_lacks", 1);
     }
     if flags.5 {
         ctx.count("fold_cases_acct_svcr_ref_and_code_capture_code_judged", 1);
@@ -1300,13 +1405,14 @@ fn run(ctx: &mut Ctx) {
 
     // ---------------- family B ----------------
     let maxlen = ctx.tier.pick(3usize, 4usize);
-    let pc = pc_records();
+    let pc_csv = pc_records(Veh::Csv);
+    let pc_viseca = pc_records(Veh::Viseca);
     let camt = camt_records();
     let mut b_cases = 0u64;
-    for (veh, alphabet) in [(Veh::Csv, &csv_rules), (Veh::Viseca, &viseca_rules)] {
+    for (veh, alphabet, pc) in [(Veh::Csv, &csv_rules, &pc_csv), (Veh::Viseca, &viseca_rules, &pc_viseca)] {
         for_each_seq(alphabet.len(), 0, maxlen, &mut |idx| {
             let rules: Vec<&RuleDef> = idx.iter().map(|&i| alphabet[i]).collect();
-            for rec in &pc {
+            for rec in pc.iter() {
                 b_cases += 1;
                 if !ctx.next_is_mine() {
                     ctx.skip_cases(1);
@@ -1332,7 +1438,8 @@ fn run(ctx: &mut Ctx) {
 
     // ---------------- family C ----------------
     let mut dir: Option<PathBuf> = None;
-    let e2e_recs: Vec<Rec> = pc.iter().filter(|r| (r.field(F::Category) == Some("Food")) != r.credit).cloned().collect();
+    // 6 base records plus the one whose category cell spans two lines
+    let e2e_recs: Vec<Rec> = pc_csv.iter().take(12).filter(|r| (r.field(F::Category) == Some("Food")) != r.credit).chain(pc_csv.iter().filter(|r| r.field(F::Category) == Some(CAT_MULTILINE)).take(1)).cloned().collect();
     let mut c_cases = 0u64;
     for x in PC_RULES.iter() {
         for y in PC_RULES.iter() {
